@@ -396,6 +396,19 @@ for _p in ('C05', 'C07'):
 CHOICE_DEC = [(D, 'ber.decoder::ChoicePayloadDecoder.valueDecoder')]
 for _p in ('C09', 'C10', 'C12'):
     PROPS[_p]['contracts'] = PROPS[_p]['contracts'] + CHOICE_DEC
+UC = 'contracts.univ_containers'
+import contracts.univ_containers as _uc
+CONTAINERS = [(UC, c.id) for c in _uc.CONTRACTS]
+PROPS['C19']['contracts'] = PROPS['C19']['contracts'] + CONTAINERS
+PROPS['C04']['contracts'] = PROPS['C04']['contracts'] + [c for c in CONTAINERS if '_cloneComponentValues' in c[1] or '.append' in c[1]]
+PROPS['C12']['contracts'] = PROPS['C12']['contracts'] + [c for c in CONTAINERS if '_cloneComponentValues' in c[1] or 'getComponentByPosition' in c[1]]
+PROPS['C10']['contracts'] = PROPS['C10']['contracts'] + [c for c in CONTAINERS if '.isValue' in c[1]]
+PROPS['C19']['level_text'] += (' SEQUENCE OF / SET OF against an abstract view: the sparse dict is modelled with symbolic integer keys '
+                               'and __len__, clear, reset, setComponentByPosition (frame: every other position keeps its member; a '
+                               'refused assignment changes nothing), getComponentByPosition (reading an existing member changes '
+                               'nothing), __getitem__/__setitem__ (library errors become IndexError, no change), append, isValue and '
+                               '_cloneComponentValues are discharged for all contents; `dense` (positions 0..L-1, i.e. a python list) '
+                               'is preserved by every well-formed mutator.')
 for _p in list(PROPS):
     NOT_CLAIMED.pop(_p, None)
 
